@@ -15,6 +15,8 @@ pub mod task {
         R: Send + 'static,
     {
         real_tokio::task::spawn(async move {
+            // not before the simulator lets it (see srvsim::blocking_gate)
+            let _ = svgbob_verif_srvsim::blocking_gate().await;
             for _ in 0..svgbob_verif_srvsim::blocking_delay() {
                 real_tokio::task::yield_now().await;
             }
@@ -27,6 +29,89 @@ pub mod task {
         F: FnOnce() -> R,
     {
         f()
+    }
+}
+
+pub mod net {
+    //! `tokio::net` with the TCP listener and stream replaced, for servers that
+    //! run their own accept loop instead of `axum::Server::bind`: `bind` installs
+    //! the simulator, `accept` yields the simulator's in-memory connections (and
+    //! the accept errors it injects, which such a loop has to survive itself).
+    pub use real_tokio::net::*;
+    use std::io;
+    use std::net::SocketAddr;
+    use std::pin::Pin;
+    use std::task::{Context, Poll};
+    use svgbob_verif_srvsim::net::{NetRef, SimStream};
+
+    pub struct TcpListener {
+        net: NetRef,
+        addr: SocketAddr,
+    }
+
+    pub struct TcpStream {
+        inner: SimStream,
+        peer: SocketAddr,
+        local: SocketAddr,
+    }
+
+    impl TcpListener {
+        pub async fn bind<A: real_tokio::net::ToSocketAddrs>(addr: A) -> io::Result<TcpListener> {
+            let addr = real_tokio::net::lookup_host(addr).await?.next().unwrap_or_else(|| ([0, 0, 0, 0], 3000).into());
+            Ok(TcpListener { net: svgbob_verif_srvsim::install_listener(addr), addr })
+        }
+        pub fn local_addr(&self) -> io::Result<SocketAddr> {
+            Ok(self.addr)
+        }
+        pub async fn accept(&self) -> io::Result<(TcpStream, SocketAddr)> {
+            std::future::poll_fn(|cx| self.poll_accept(cx)).await
+        }
+        pub fn poll_accept(&self, cx: &mut Context<'_>) -> Poll<io::Result<(TcpStream, SocketAddr)>> {
+            match svgbob_verif_srvsim::net::poll_accept_raw(&self.net, cx) {
+                Poll::Pending => Poll::Pending,
+                Poll::Ready(Err(e)) => Poll::Ready(Err(e)),
+                Poll::Ready(Ok(s)) => {
+                    let peer: SocketAddr = ([127, 0, 0, 1], 40000).into();
+                    Poll::Ready(Ok((TcpStream { inner: s, peer, local: self.addr }, peer)))
+                }
+            }
+        }
+    }
+
+    impl TcpStream {
+        pub fn set_nodelay(&self, _on: bool) -> io::Result<()> {
+            Ok(())
+        }
+        pub fn nodelay(&self) -> io::Result<bool> {
+            Ok(true)
+        }
+        pub fn peer_addr(&self) -> io::Result<SocketAddr> {
+            Ok(self.peer)
+        }
+        pub fn local_addr(&self) -> io::Result<SocketAddr> {
+            Ok(self.local)
+        }
+        pub fn set_ttl(&self, _ttl: u32) -> io::Result<()> {
+            Ok(())
+        }
+    }
+
+    impl real_tokio::io::AsyncRead for TcpStream {
+        fn poll_read(mut self: Pin<&mut Self>, cx: &mut Context<'_>, buf: &mut real_tokio::io::ReadBuf<'_>) -> Poll<io::Result<()>> {
+            Pin::new(&mut self.inner).poll_read(cx, buf)
+        }
+    }
+
+    impl real_tokio::io::AsyncWrite for TcpStream {
+        fn poll_write(mut self: Pin<&mut Self>, cx: &mut Context<'_>, data: &[u8]) -> Poll<io::Result<usize>> {
+            Pin::new(&mut self.inner).poll_write(cx, data)
+        }
+        fn poll_flush(mut self: Pin<&mut Self>, cx: &mut Context<'_>) -> Poll<io::Result<()>> {
+            Pin::new(&mut self.inner).poll_flush(cx)
+        }
+        fn poll_shutdown(mut self: Pin<&mut Self>, cx: &mut Context<'_>) -> Poll<io::Result<()>> {
+            Pin::new(&mut self.inner).poll_shutdown(cx)
+        }
     }
 }
 
